@@ -1,2 +1,9 @@
 #!/bin/sh
-exit 0
+# Build the framework from files on disk only (offline): Lean model+proofs+driver, Rust harness.
+set -e
+cd "$(dirname "$0")/.."
+export CARGO_NET_OFFLINE=true
+(cd lean && lake build Deb822Verif model)
+[ -f harness/Cargo.lock ] || cp /repo/Cargo.lock harness/Cargo.lock
+(cd harness && cargo build --release --offline)
+mkdir -p work replays evidence
